@@ -54,15 +54,9 @@ def rundir(tag):
     os.makedirs(d)
     for f in glob.glob(os.path.join(SPEC, "*.tla")):
         shutil.copy(f, d)
-    v = os.path.join(BUILD, "vocab", str(os.getpid()), "Vocab.tla")
-    if not os.path.exists(v):
-        # worker processes of a check (multiprocessing) use their parent's tables
-        v = os.path.join(BUILD, "vocab", str(os.getppid()), "Vocab.tla")
-    if not os.path.exists(v):
-        from . import vocab as _vocab           # extract the tables of the tree under test now
-        _vocab.get()
-        v = os.path.join(BUILD, "vocab", str(os.getpid()), "Vocab.tla")
-    shutil.copy(v, d)
+    # the vocabulary of the tree under test is written straight into the run directory (no shared file)
+    from . import vocab as _vocab
+    _vocab.emit_tla(_vocab.get(), os.path.join(d, "Vocab.tla"))
     return d
 
 
